@@ -2,7 +2,7 @@
    is built once.  The syndromes of ALL error words of weight <= 2 on 89 positions
    (1 + 89*31 + C(89,2)*31^2 = 3,766,036 values, generated tail-recursively on primitive
    63-bit integers) are pairwise distinct; checked by the radix-partition checker under
-   vm_compute (about 65 s, 1 GB).  With Proofs/Bech32Radix.v this gives the minimum-distance
+   vm_compute (measured: 10-15 s, 0.9 GB, default stack).  With Proofs/Bech32Radix.v this gives the minimum-distance
    statement for the Z MODEL: no error word of weight 1..4 and length <= 89 over 5-bit
    symbols is a codeword.  Depends on /repo only through the five generator words and the
    shift/mask literals of Gen/Bech32.v. *)
